@@ -531,8 +531,11 @@ func TestVxC04Session(t *testing.T) {
 			if r.Kind == "ERROR" && r.Code == cqlspec.ErrUnprepared {
 				return nil // makes the driver re-prepare and retry: C14's subject
 			}
-			if r.Meta != nil {
-				r.Meta.HasMore, r.Meta.StateHex = false, "" // paging is C15's subject
+			// following pages is C15's subject: a response that announces more pages is requested with manual
+			// paging (Query.PageState(nil): no automatic follow-up), and Iter.PageState() must be the state it carried
+			manual := r.Kind == "ROWS" && r.Meta != nil && r.Meta.HasMore
+			if manual {
+				k.Class("has-more-pages (manual paging)")
 			}
 			k.Class("kind=" + r.Kind)
 			k.Class(fmt.Sprintf("v%d prepared=%v", r.Version, c.Prepared))
@@ -578,6 +581,9 @@ func TestVxC04Session(t *testing.T) {
 			tr := &vxTracer{}
 			if r.TraceHex != "" {
 				q = q.Trace(tr)
+			}
+			if manual {
+				q = q.PageState(nil)
 			}
 			iter := q.Iter()
 			nt := r.TraceHex != "" || r.Warnings != nil || r.HasPayload || comp != nil
